@@ -17,6 +17,7 @@ package h2a
 import (
 	"fmt"
 	"os"
+	"runtime"
 	"strings"
 	"testing"
 
@@ -61,6 +62,7 @@ type c34Conn struct {
 	r       *rig
 	connWin int64
 	snaps   []c34Snap
+	applied int // index of the newest snap known to be applied (PING barrier)
 	streams []*c34Stream
 	byID    map[uint32]*c34Stream
 	binding map[string]bool
@@ -77,7 +79,13 @@ func (c *c34Conn) logf(format string, args ...any) {
 }
 
 func (c *c34Conn) upper() (iws, mfs int64) {
+	// The server coalesces SETTINGS acknowledgements (one ACK may cover several SETTINGS
+	// frames), so k acks only prove that the first k SETTINGS frames were applied; a PING
+	// acknowledgement proves that everything sent before the PING was applied.
 	k := c.r.settingsAck - 1
+	if c.applied > k {
+		k = c.applied
+	}
 	if k < 0 {
 		// nothing acknowledged yet: protocol defaults may still be in force
 		iws, mfs = 65535, 16384
@@ -273,6 +281,10 @@ func c34Run(rt *rapid.T, rec *ev.Rec) {
 	died := func() {
 		if r.wasTimedOut() {
 			inconclusive = "watchdog"
+			if os.Getenv("H2A_DEBUG") != "" {
+				buf := make([]byte, 1<<20)
+				fmt.Printf("GOROUTINES\n%s\n", buf[:runtime.Stack(buf, true)])
+			}
 			return
 		}
 		if checkViol() {
@@ -289,7 +301,14 @@ func c34Run(rt *rapid.T, rec *ev.Rec) {
 		fail("conn-closed-unexpectedly", "connection ended while the script was legal: %v", rdErr)
 	}
 	barrier := func() bool {
+		idx := 0
+		r.locked(func() { idx = len(c.snaps) - 1 })
 		if r.ping() {
+			r.locked(func() {
+				if idx > c.applied {
+					c.applied = idx
+				}
+			})
 			return true
 		}
 		died()
@@ -454,15 +473,13 @@ func c34Run(rt *rapid.T, rec *ev.Rec) {
 			classes["client-reset"] = true
 		}
 	}
-	// drain: open the remaining streams, wait for all SETTINGS acks, grant what is needed
+	// drain: open the remaining streams, make sure all SETTINGS are applied, grant what is needed
 	for len(c.streams) < nStreams && !failed && inconclusive == "" {
 		open()
 	}
 	if !failed && inconclusive == "" && !checkViol() {
 		c.logf("drain: grant all credit needed and wait for END_STREAM on every live stream")
-		if !r.waitFor(func() bool { return r.settingsAck >= len(c.snaps) }) {
-			died()
-		}
+		barrier() // every SETTINGS frame sent so far is applied once the PING is acknowledged
 	}
 	if !failed && inconclusive == "" {
 		type grant struct {
